@@ -110,6 +110,35 @@ func c21(c *hx.Ctx) {
 	c.Agree = "c21_agree"
 	c.Rule = "(a) sequential scripts against the real client behind a scripted relay, weighted towards acks, clears, cancellations and overlapping Sends, compared step by step with the model; (b) real relay server + 2 or 3 real clients, concurrent histories with reconnects, detach/re-attach, back pressure, gated receivers, cancellations, honest and message-dropping relays: every successful Send must be preceded by the partner's Recv returning the same body; (c) the back-pressure history of the stale-ack defect as a regression; non-trivial = script with a Send or a returned Recv"
 	ackSeen := map[int]bool{}
+	// a message pending (or not) and a Recv / Send with an already cancelled context
+	preScript = func(g *genState, i int) {
+		if i < 0 || i >= 8 {
+			return
+		}
+		r := g.r
+		r.apply(&sop{kind: "conn"})
+		g.epoch++
+		r.apply(&sop{kind: "resp", resp: rOpened(g.epoch)})
+		if i%2 == 0 {
+			hm := r.tab.craft("honest", g.body(), g.nextSeq, 0, encoding{})
+			g.nextSeq++
+			r.apply(&sop{kind: "resp", resp: rRecv(hm), note: "honest"})
+		}
+		switch (i / 2) % 4 {
+		case 0:
+			r.apply(&sop{kind: "recvc"})
+		case 1:
+			r.apply(&sop{kind: "recvc"})
+			r.apply(&sop{kind: "recv"})
+		case 2:
+			r.apply(&sop{kind: "sendc", body: g.body()})
+		case 3:
+			r.apply(&sop{kind: "send", body: g.body()})
+			r.apply(&sop{kind: "sendc", body: g.body()})
+		}
+		g.class("targeted:cancelled-ctx")
+	}
+	defer func() { preScript = nil }()
 	runScripts(c, c.N*2/3, &profC21, fixedC21(), true, func(g *genState, desc map[string]any) {
 		for _, v := range g.named {
 			c.Failf("c21-ack-clear-not-named", desc, "%s", v)
@@ -117,10 +146,30 @@ func c21(c *hx.Ctx) {
 		for _, v := range g.earlyOk {
 			c.Failf("c21-send-ok-without-ack", desc, "%s", v)
 		}
+		// every ack the client wrote names a message that a Recv call RETURNED to the application
+		returned := map[uint64]bool{}
+		for _, m := range g.r.recvGot() {
+			returned[m.GetSeqno()] = true
+		}
+		for _, strm := range g.r.allStreams() {
+			for _, q := range strm.requests() {
+				if n := q.GetAckMsg(); n != 0 && !returned[n] {
+					c.Failf("c21-ack-without-handoff", desc, "the client acknowledged message %d although no Recv call returned it to the application", n)
+				}
+			}
+		}
 		_ = ackSeen
 	})
 	// composition scripts: real relay between two real clients, step by step against the composed model
-	runWorldScripts(c, c.N/3, 3, 4, nil, func(r *worldRunner, desc map[string]any) {
+	fixedW21 := [][][3]any{
+		// a message is pending at B when B's application calls Recv with an already cancelled context
+		{{"conn", 0, ""}, {"conn", 1, ""}, {"send", 0, "pq"}, {"recvc", 1, ""}, {"recv", 1, ""}},
+		// the same with nothing pending, then the message arrives
+		{{"conn", 0, ""}, {"conn", 1, ""}, {"recvc", 1, ""}, {"send", 0, "pq"}, {"recvc", 1, ""}, {"recvc", 1, ""}},
+		// Send with an already cancelled context never transmits
+		{{"conn", 0, ""}, {"conn", 1, ""}, {"recv", 1, ""}, {"sendc", 0, "zz"}, {"send", 0, "pq"}},
+	}
+	runWorldScripts(c, c.N/3, 3, 4, fixedW21, func(r *worldRunner, desc map[string]any) {
 		// a finished Send must have been received by the partner (any earlier Recv result with the same body)
 		for x := 0; x < 2; x++ {
 			for _, s := range r.sends[x] {
